@@ -599,7 +599,32 @@ func checkResultsUsed(c *Ctx, r *Run, rule string, min int) {
 				nth := map[string]int{}
 				allInstrs(fn, func(in ssa.Instruction) {
 					call, ok := in.(*ssa.Call)
-					if !ok || !hasResult(call) {
+					if !ok {
+						return
+					}
+					if !hasResult(call) {
+						// a call without results to a function of the module that stores something and yet changes nothing
+						// the caller can see (it writes into a copy: a value receiver, a by-value array): a lost update
+						cal := call.Call.StaticCallee()
+						if cal == nil || !p.inModule(cal) || len(cal.Blocks) == 0 {
+							return
+						}
+						stores := false
+						allInstrs(cal, func(in2 ssa.Instruction) {
+							if st, isSt := in2.(*ssa.Store); isSt {
+								if _, isParam := st.Val.(*ssa.Parameter); !isParam {
+									stores = true
+								}
+							}
+						})
+						if !stores {
+							return
+						}
+						if pure, name := p.callIsPure(call); pure {
+							nth[name]++
+							r.Check(rule, fmt.Sprintf("%s|%s #%d|update-kept", c.FuncName(fn), name, nth[name]), c.Pos(call.Pos()), false, "",
+								name+" returns nothing and changes nothing outside its own frame (what it writes is a copy - a value receiver or a by-value array/struct parameter): the update the caller relies on is lost")
+						}
 						return
 					}
 					pure, name := p.callIsPure(call)
